@@ -13,7 +13,12 @@ RULE = ("seeded epsilon-NFA/NFA/DFA descriptors (<=5 states, <=3 symbols, <=9 tr
 
 
 def gen(rng, tier):
-    return G.gen_fa(rng)
+    c = G.gen_fa(rng)
+    if c["kind"] in ("nfa", "dfa") and len(c["states"]) >= 1 and rng.chance(0.15):
+        # an epsilon move handed to an epsilon-free class under its string spelling: it must be refused
+        # (InvalidEpsilonTransition) or, if taken, honoured by accepts()
+        c["eps_string_edge"] = [rng.pick(c["states"]), rng.pick(c["states"])]
+    return c
 
 
 def shrink(case):
@@ -38,6 +43,17 @@ def run(case, out):
                                               EpsilonNFA)
     ref = G.ref_of(case)
     fa = G.build(case)
+    if case.get("eps_string_edge"):
+        from pyformlang.finite_automaton.transition_function import InvalidEpsilonTransition
+        p, q = case["eps_string_edge"]
+        out.probe("epsilon_string_offered_to_epsilon_free_class")
+        try:
+            fa.add_transition(G.sval(case, p), "epsilon", G.sval(case, q))
+            ref = M.Nfa(ref.states | {G.skey(case, p), G.skey(case, q)}, ref.alphabet,
+                        set(ref.trans) | {(G.skey(case, p), None, G.skey(case, q))}, ref.starts, ref.finals)
+            out.probe("epsilon_string_taken")
+        except InvalidEpsilonTransition:
+            pass
     out.sig = G.signature(fa)
     out.shape = G.shape_digest(case)
     alpha = sorted(set(G.alphabet_keys(case)))
@@ -79,7 +95,7 @@ def run(case, out):
             break
     # -- conversions ------------------------------------------------------------
     convs = [("to_deterministic", True, True), ("minimize", True, True), ("copy", False, False)]
-    if case["kind"] == "enfa":
+    if case["kind"] == "enfa" or any(a is None for _, a, _ in ref.trans):
         convs.append(("remove_epsilon_transitions", False, True))
     for op, want_det, want_eps_free in convs:
         res = out.call(op, getattr(fa, op))
